@@ -363,6 +363,19 @@ def strategy(draw, types=IN_PROCESS, max_args=5):
     consts = draw(gens.constants())
     for nm, _ in args:
         consts.pop(nm, None)
+    if draw(st.sampled_from([False, False, False, True])):
+        # None is a value like any other ("no limit", "no seed")
+        free = [n for n in gens.CONST_NAMES
+                if n not in consts and n not in {a for a, _ in args}]
+        if free:
+            consts[free[0]] = None
+    if draw(st.sampled_from([False] * 4 + [True])):
+        # a negative zero among the values (np.round(-0.25), -1e-400 ...):
+        # the function must be given that very value
+        for _, vals in args:
+            if all(isinstance(v, float) and v != 0 for v in vals):
+                vals[draw(st.integers(0, len(vals) - 1))] = -0.0
+                break
     kind = draw(st.sampled_from(
         ["int", "str", "tuple2", "tuple3", "nested", "ndarray", "tuple_arr",
          "tuple_2d", "ndarray2d"]))
